@@ -79,3 +79,41 @@ Proof.
   - repeat split.
   - cbn [pst pneed prd]. eapply (stuck_missing_comma _ _ _ 50 [93] 3); try reflexivity; lia.
 Qed.
+
+(* traces compose *)
+Lemma trace_app : forall n m p tr1 tr2, trace n p = Some tr1 -> trace m (last_parser p tr1) = Some tr2 ->
+  trace (n + m) p = Some (tr1 ++ tr2).
+Proof.
+  induction n as [|n IH]; intros m p tr1 tr2 E1 E2; cbn [trace Nat.add] in *.
+  - inversion E1; subst. exact E2.
+  - destruct (next p) as [[u p']|]; [|discriminate].
+    destruct (trace n p') as [tr'|] eqn:E'; [|discriminate]. inversion E1; subst tr1.
+    rewrite last_parser_cons in E2. rewrite (IH m p' tr' tr2 E' E2). reflexivity.
+Qed.
+
+(* A parse error can be reported forever without progress: on the input  1 1  the first call returns the
+   Number, and every further call returns ErrorGrammar with the parse error at offset 2 (the caller never
+   sees io.EOF). *)
+Theorem parse_error_forever_proof : forall n,
+  exists tr, trace (2 + n) (json_init [49; 32; 49]) = Some tr /\
+    grammars tr = G_Number :: G_Error :: repeat G_Error n /\
+    Forall (fun up => perr (snd up) = Some 2 /\ err_kind (snd up) = 2) (skipn 1 tr).
+Proof.
+  intros n.
+  set (p2 := mkP (mkLx [49; 32; 49; 0] 2 2) [0] (Some 2) true 0).
+  assert (E2 : trace 2 (json_init [49; 32; 49]) =
+               Some [((G_Number, Some (0, [49])), mkP (mkLx [49; 32; 49; 0] 1 1) [0] None true 0);
+                     ((G_Error, None), p2)]) by (vm_compute; reflexivity).
+  assert (Hc : cur3 (pz p2) [49; 32] [] [49]) by (repeat split).
+  assert (Hs : stuck_at (pst p2) (pneed p2) (prd p2) [49]).
+  { cbn [p2 pst pneed prd]. eapply (stuck_missing_comma _ _ _ 49 [] 0); try reflexivity; lia. }
+  destruct (parse_error_stuck_proof n p2 [49; 32] [] [49] Hc Hs) as (tr & Et & Hl & Hf).
+  eexists. split; [apply (trace_app 2 n _ _ tr E2); exact Et|]. split.
+  - cbn [app grammars map fst]. do 2 f_equal.
+    clear Et. revert Hl Hf. generalize n. induction tr as [|[u p'] tr IH]; intros k Hl Hf; cbn in Hl; subst k; [reflexivity|].
+    inversion Hf as [|? ? Hh Ht]; subst. destruct Hh as (Hu & _). cbn [fst] in Hu. subst u.
+    cbn [length repeat map fst]. f_equal. apply (IH (length tr) eq_refl Ht).
+  - cbn [app skipn]. constructor; [split; reflexivity|].
+    eapply Forall_impl; [|exact Hf]. intros [u p'] (_ & Hp & _). cbn [snd] in *. split; [exact Hp|].
+    unfold err_kind. rewrite Hp. reflexivity.
+Qed.
